@@ -187,6 +187,9 @@ pub enum Policy {
     Always,
     WindowIn,
     WindowOut,
+    /// window [hour + a, hour + b] around the current hour (100 stands for "hour 0" / "hour 23":
+    /// the whole day); skipped when an edge falls outside 0..23
+    Window(i8, i8),
 }
 #[derive(Clone, Copy, Debug, PartialEq, Eq)]
 pub enum Trig {
@@ -234,7 +237,16 @@ impl C18Case {
     }
     fn from_json(v: &Value) -> Option<C18Case> {
         Some(C18Case {
-            policy: match v["policy"].as_str()? { "Never" => Policy::Never, "Always" => Policy::Always, "WindowIn" => Policy::WindowIn, _ => Policy::WindowOut },
+            policy: match v["policy"].as_str()? {
+                "Never" => Policy::Never,
+                "Always" => Policy::Always,
+                "WindowIn" => Policy::WindowIn,
+                p if p.starts_with("Window(") => {
+                    let t: Vec<i8> = p.trim_start_matches("Window(").trim_end_matches(')').split(',').filter_map(|x| x.trim().parse().ok()).collect();
+                    Policy::Window(*t.first()?, *t.get(1)?)
+                }
+                _ => Policy::WindowOut,
+            },
             trig: match v["trigger"].as_str()? { "None" => Trig::None, "DeadBytes" => Trig::DeadBytes, "Frag" => Trig::Frag, "DeadEq" => Trig::DeadEq, "FragEq" => Trig::FragEq, "ZeroNoDead" => Trig::ZeroNoDead, _ => Trig::Both },
             k: v["k"].as_u64()? as usize,
             interval_ms: v["interval_ms"].as_u64()?,
@@ -285,7 +297,21 @@ pub fn c18_case(dir: &Path, c: &C18Case) -> Result<String, V> {
         Policy::Always => VerifMergePolicy::Always,
         Policy::WindowIn => VerifMergePolicy::Window { start: hour0, end: hour0 },
         Policy::WindowOut => VerifMergePolicy::Window { start: (hour0 + 12) % 24, end: (hour0 + 12) % 24 },
+        Policy::Window(a, b) => {
+            let (s, e) = if (a, b) == (100, 100) { (0i32, 23i32) } else { (hour0 as i32 + a as i32, hour0 as i32 + b as i32) };
+            if s < 0 || e > 23 || s > e {
+                return Ok("window-edge-outside-the-day: skipped".into());
+            }
+            VerifMergePolicy::Window { start: s as u32, end: e as u32 }
+        }
     });
+    // is the current hour inside the configured window (both edges belong to it)?
+    let in_window = match c.policy {
+        Policy::Window(100, 100) => true,
+        Policy::Window(a, b) => a <= 0 && 0 <= b,
+        Policy::WindowOut => false,
+        _ => true,
+    };
     conf.sync(match c.sync {
         SyncS::None => SyncStrategy::None,
         SyncS::Always => SyncStrategy::Always,
@@ -306,7 +332,7 @@ pub fn c18_case(dir: &Path, c: &C18Case) -> Result<String, V> {
         } else {
             h.set(b("k"), b("v")).map_err(|e| mach(e.to_string()))?;
         }
-        let allowed = matches!(c.policy, Policy::Always | Policy::WindowIn);
+        let allowed = matches!(c.policy, Policy::Always | Policy::WindowIn) || (matches!(c.policy, Policy::Window(..)) && in_window);
         let mut tick_times: Vec<i64> = vec![];
         let mut merges_seen_at: Vec<usize> = vec![];
         let mut expected_at: Vec<usize> = vec![];
@@ -374,7 +400,7 @@ pub fn c18_case(dir: &Path, c: &C18Case) -> Result<String, V> {
                 // the implementation's predicate equals the reference predicate on the counters
                 let dump = h.verif_dump();
                 let refp = reference_can_merge(&dump.stats, dt, ft);
-                let window_ok = !matches!(c.policy, Policy::WindowOut);
+                let window_ok = in_window;
                 let implp = h.verif_can_merge();
                 if implp != (refp && window_ok) {
                     return Err(("trigger-predicate-differs-from-reference".into(), format!("tick {}: can_merge() = {}, reference on counters {:?} with triggers dead_bytes>{} fragmentation>{} = {} (window ok: {})", tick, implp, dump.stats, dt, ft, refp, window_ok)));
@@ -540,6 +566,13 @@ fn c18_cases(tier: Tier) -> Vec<C18Case> {
                     }
                 }
             }
+        }
+    }
+    // window edges: the current hour is the first / the last / an inner hour of the window, the hour
+    // before it, the hour after it; the whole day
+    for (a, b) in [(0i8, 1i8), (-1, 0), (-1, 1), (0, 0), (1, 2), (-2, -1), (1, 1), (-1, -1), (100, 100)] {
+        for trig in [Trig::DeadBytes, Trig::None] {
+            v.push(C18Case { policy: Policy::Window(a, b), trig, k: 1, interval_ms: 1000, jitter: 0.0, sync: SyncS::None, horizon, fail_first_merge: false, fail_sync_nth: 0, recross: false });
         }
     }
     // a merge that fails must not end the periodic task: the next tick merges
